@@ -329,6 +329,76 @@ Theorem gen_proximal_gradient_is_model :
     /\ h_log s = tracek (fun x => x) niter 0 (pg_step proxf gradg gamma lam) x.
 Proof. exact gen_pg_run. Qed.
 Print Assumptions gen_proximal_gradient_is_model.
+
+(* ---- solvers over lists of operators: the regenerated per-index programs.
+   One pass of the inner loop body for a generic index j (operator record o)
+   leaves in x, in duals[j] and in the shared temporary exactly what the
+   model's per-index step computes; duals[j] and the temporary remain two
+   different objects (ids 1 and 2) holding the same value. *)
+Theorem gen_adupdates_index_step :
+  forall (stepsize : R) (o : @adop R) (junk : string -> list R), ad_inner_v o = None ->
+  forall (x d t : list R) (log : list (list R)),
+  let I := adup_I stepsize o junk in
+  let p := ad_prox o (ad_arg stepsize o d x) in
+  body_step I adupdates_inner2
+    (mk_hst [("x", 0%nat); ("duals[j]", 1%nat); ("tmp_rans[L[j].range]", 2%nat)] [x; d; t] log)
+  = Some (mk_hst [("x", 0%nat); ("duals[j]", 1%nat); ("tmp_rans[L[j].range]", 2%nat); ("arg", 3%nat); ("tmp_ran", 2%nat)]
+            [adup_x1 stepsize o x d; p; p; ad_arg stepsize o d x] log)
+  /\ body_step I adupdates_simple_inner2 (mk_hst [("x", 0%nat); ("duals[j]", 1%nat)] [x; d] log)
+     = Some (mk_hst [("x", 0%nat); ("duals[j]", 1%nat); ("dual_tmp", 2%nat)] [adup_x1 stepsize o x d; p; p] log)
+  /\ body_step I adupdates_inner1 (mk_hst [("x", 0%nat); ("duals[i]", 1%nat)] [x; d] log)
+     = Some (mk_hst [("x", 0%nat); ("duals[i]", 1%nat)] [ad_pre stepsize [o] [d] x; d] log).
+Proof.
+  exact (fun stepsize o junk H x d t log =>
+    conj (gen_adup_opt_step stepsize o junk H x d t log)
+      (conj (gen_adup_ref_step stepsize o junk H x d log) (gen_adup_pre_step stepsize o junk x d log))).
+Qed.
+Print Assumptions gen_adupdates_index_step.
+
+(* ... and these ARE the one-operator sweeps of the model; the outer loop body is
+   [first sweep; second sweep; callback] in both versions, with the same first sweep *)
+Theorem gen_adupdates_step_is_model :
+  forall (stepsize : R) (o : @adop R) (x d : list R) (tmps : list (list R)),
+  (ad_key o < length tmps)%nat ->
+  ad_sweep_opt stepsize [o] [d] tmps x
+  = (adup_x1 stepsize o x d, [ad_prox o (ad_arg stepsize o d x)],
+     setnth (ad_key o) (ad_prox o (ad_arg stepsize o d x)) tmps, [adup_x1 stepsize o x d])
+  /\ ad_sweep_ref stepsize [o] [d] x
+     = (adup_x1 stepsize o x d, [ad_prox o (ad_arg stepsize o d x)], [adup_x1 stepsize o x d]).
+Proof. exact adup_model_step. Qed.
+Print Assumptions gen_adupdates_step_is_model.
+
+Theorem gen_loop_skeletons :
+  (adupdates_outer = [OFor "i" adupdates_inner1; OFor "j" adupdates_inner2; OStmt (Callback "x")]
+   /\ adupdates_simple_outer = [OFor "i" adupdates_simple_inner1; OFor "j" adupdates_simple_inner2]
+   /\ adupdates_inner1 = adupdates_simple_inner1)
+  /\ kaczmarz_outer = [OFor "i" kaczmarz_inner1; OStmt (Callback "x")]
+  /\ (osmlem_outer = [OFor "i" osmlem_inner1] /\ mlem_is_osmlem_with_one_operator = true).
+Proof. exact (conj adupdates_skeleton (conj kaczmarz_skeleton osmlem_skeleton)). Qed.
+Print Assumptions gen_loop_skeletons.
+
+Theorem gen_kaczmarz_index_step :
+  forall (proj : list R -> list R) (o : @kzop R) (junk : string -> list R) (x td t : list R) (log : list (list R)),
+  body_step (kz_I proj o junk) kaczmarz_inner1
+    (mk_hst [("x", 0%nat); ("caller.x", 0%nat); ("tmp_dom", 1%nat); ("rhs[i]", 2%nat); ("tmp_rans[ops[i].range]", 3%nat)]
+            [x; td; kz_rhs o; t] log)
+  = Some (mk_hst [("x", 0%nat); ("caller.x", 0%nat); ("tmp_dom", 1%nat); ("rhs[i]", 2%nat);
+                  ("tmp_rans[ops[i].range]", 3%nat); ("tmp_ran", 3%nat)]
+            [kz_one proj o x; kz_Dadj o x (vsub (kz_A o x) (kz_rhs o)); kz_rhs o; vsub (kz_A o x) (kz_rhs o)] log).
+Proof. exact gen_kz_step. Qed.
+Print Assumptions gen_kaczmarz_index_step.
+
+Theorem gen_osmlem_index_step :
+  forall (eps : R) (o : @emop R) (junk : string -> list R) (x td tr : list R) (log : list (list R)),
+  body_step (em_I eps o junk) osmlem_inner1
+    (mk_hst [("x", 0%nat); ("caller.x", 0%nat); ("tmp_dom", 1%nat); ("tmp_ran[i]", 2%nat); ("data[i]", 3%nat);
+             ("sensitivities[i]", 4%nat)] [x; td; tr; em_data o; em_sens o] log)
+  = Some (mk_hst [("x", 0%nat); ("caller.x", 0%nat); ("tmp_dom", 1%nat); ("tmp_ran[i]", 2%nat); ("data[i]", 3%nat);
+                  ("sensitivities[i]", 4%nat)]
+            [em_one eps o x; vdiv (em_Aadj o (vdiv (em_data o) (vmaxc eps (em_A o x)))) (em_sens o);
+             vdiv (em_data o) (vmaxc eps (em_A o x)); em_data o; em_sens o] (log ++ [em_one eps o x])).
+Proof. exact gen_em_step. Qed.
+Print Assumptions gen_osmlem_index_step.
 Local Close Scope string_scope.
 
 (* ------------------------------------------------------------ non-vacuity *)
